@@ -1,4 +1,4 @@
-\* C18 thorough (replay 2, TraceparentFilter alone): 2 threads, <= 2 spans, <= 3 frames, 1 task, nesting <= 2, all seven headers (incl. same trace / other caller span, nested mismatched trace, both invalid kinds); every transition replayed.
+\* C18 thorough (replay 2; TraceparentFilter alone): 2 threads, <= 2 spans, <= 3 frames, 1 task (polled on either thread), nesting <= 2, all forms, Frame::current hand-off; every transition replayed.
 SPECIFICATION Spec
 CONSTANTS
     NThreads = 2
@@ -6,7 +6,7 @@ CONSTANTS
     MaxFrames = 3
     MaxTasks = 1
     MaxDepth = 2
-    Headers <- MC_HeadersAll
+    Headers <- MC_NoHeaders
     InSampled = FALSE
     SnapshotOnPush = TRUE
     WithLazy = TRUE
